@@ -25,14 +25,14 @@ theorem extract_ok : extractOk = true := by decide
 
 /-- the order of the file effects in the source: the file is sized before it is mapped and given a header; an entry is
 written completely before the used-bytes header is published; growth is a loop; a value update is one 16-byte slice
-assignment; the reader is bounded by the header and treats a file shorter than the counter as empty -/
+assignment; the reader is bounded by the header and treats a file shorter than the counter as empty; `_init_value` writes the whole entry, the two zero doubles included -/
 theorem skeleton_wellformed :
     ctorEffects = [.openFile, .truncateInitial, .remap, .writeHeader] ∧
     initValueEffects = [.growLoop, .writeEntry, .writeHeader] ∧
     growBody = [.truncateGrow, .remap] ∧ growKind = .whileLoop ∧
     writeValueEffects = [.callInitValue, .writeValue] ∧
     packTwoDoublesSlice = twoDoublesWidth ∧ packIntegerSlice = intWidth ∧ readerUsesHeaderBound = true ∧
-    shortFileGuard = some intWidth := by decide
+    shortFileGuard = some intWidth ∧ entryPacksDoubles = true ∧ entryReserve = 0 := by decide
 
 /-- the history fits below 2^31 bytes: header + one entry per distinct key -/
 def FitsAll (ops : List Op) : Prop := 8 + need [] ops < 2147483648
@@ -138,6 +138,47 @@ theorem every_cut_reopenable (initSize : Nat) (ops : List Op) (hi : 8 ≤ initSi
     obtain ⟨d', hinit, tl, hr⟩ := init_cutrep hc initSize
     exact ⟨file, d', [], esx, tl, hs, hinit, hr, by rw [hr.absOf_eq]; exact hpre⟩
 
+/-- a NEW writer that takes over the file at any cut can carry on with any history: every operation succeeds, the store
+stays represented, and all three readers return the spec run of the continuation started from the prefix state the new
+writer found.  So after a crash + reopen + continuation every key and value read is one the dead writer completed, the
+in-flight key at zero, or one the continuation wrote.
+
+On the zero tail: the reopened store satisfies `Rep` with an ARBITRARY tail, not C10's `WF`.  At the cut between the
+entry write and the header write the bytes beyond `used` are the orphaned entry, which is not zero (`orphan_tail`); the
+clause "bytes beyond used are zero" is therefore not available to a new writer, and it is not needed: `_init_value`
+writes the whole entry, value and timestamp slots included (`skeleton_wellformed`: `entryPacksDoubles`), so whatever the
+tail holds is overwritten before the header covers it.  All step theorems of C10 are proved from `Inv` (no zero tail);
+`WF` adds the zero tail only as a further invariant of crash-free histories. -/
+theorem continuation_from_cut (initSize pageSize : Nat) (ops : List Op) (hi : 8 ≤ initSize) (hp : 4 ≤ pageSize)
+    (hf : FitsAll ops) :
+    ∃ d effs, run initSize ops = .ok (d, effs) ∧ ∀ k, 1 ≤ k →
+      ∃ file d' tr', cut effs k = some file ∧ init initSize file = .ok (d', tr') ∧
+        PrefixState (ops.map toSpec) (absOf d') ∧
+        ∀ ops2, d'.used + need (d'.positions.map (·.1)) ops2 < 2147483648 →
+          ∃ d'' tr'' es tl, runFrom initSize d' ops2 = .ok (d'', tr'') ∧ Rep d'' es tl ∧
+            absOf d'' = Spec.MmapDict.run (absOf d') (ops2.map toSpec) ∧
+            readAllValues d'' = .ok (absOf d'') ∧
+            (readAllValuesFromFile pageSize (close d'')).map tr3 = .ok (absOf d'') := by
+  obtain ⟨d, effs, hrun, hall⟩ := every_cut_reopenable initSize ops hi hf
+  refine ⟨d, effs, hrun, ?_⟩
+  intro k hk
+  obtain ⟨file, d', tr', es, tail, hc, hinit, hr, hpre⟩ := hall k hk
+  refine ⟨file, d', tr', hc, hinit, hpre, ?_⟩
+  intro ops2 hfit
+  rw [hr.keys_eq] at hfit
+  obtain ⟨d'', tr'', es'', tl'', hrun2, hr2, ht2, _⟩ := runFrom_rep initSize ops2 hr hfit
+  have hrd := hr2.readers pageSize hp
+  exact ⟨d'', tr'', es'', tl'', hrun2, hr2, by rw [hr2.absOf_eq, hr.absOf_eq, ht2], hrd.1, hrd.2⟩
+
+/-- the file at the cut between the entry write and the header write: represented with the OLD entries, and its tail —
+the orphaned entry — is not zero -/
+theorem orphan_tail {file used es tail} (h : FileRep file used es tail) (k : Key) (z : Nat)
+    (hroom : entryLen k ≤ tail.length + z) :
+    FileRep (sliceWrite (file ++ zeros z) used (encEntry (fresh k))) used es
+      (encEntry (fresh k) ++ (tail ++ zeros z).drop (entryLen k)) ∧
+    ¬ ZeroTail (encEntry (fresh k) ++ (tail ++ zeros z).drop (entryLen k)) :=
+  ⟨⟨(init_value_stages h k z hroom).1, h.used_eq, h.used_lt⟩, orphan_tail_not_zero _ _⟩
+
 /-- every key and every (value, timestamp) pair a reader returns at any cut was an argument of some operation of the
 history (or is the initial zero pair of a key the history created) -/
 theorem never_written_never_read (initSize pageSize : Nat) (ops : List Op) (hi : 8 ≤ initSize) (hp : 4 ≤ pageSize)
@@ -213,6 +254,15 @@ example : ∃ d effs, run 64 demoOps = .ok (d, effs) ∧ ∀ k,
     (k = 0 ∧ cut effs k = none) ∨ ∃ file items, cut effs k = some file ∧
       readAllValuesFromFile 4096 file = .ok items ∧ PrefixState (demoOps.map toSpec) (tr3 items) :=
   every_cut_readable 64 4096 demoOps (by decide) (by decide) demo_fits
+
+/-- a continuation from every cut of the demo history -/
+example : ∃ d effs, run 64 demoOps = .ok (d, effs) ∧ ∀ k, 1 ≤ k →
+    ∃ file d' tr', cut effs k = some file ∧ init 64 file = .ok (d', tr') ∧ PrefixState (demoOps.map toSpec) (absOf d') ∧
+      ∀ ops2, d'.used + need (d'.positions.map (·.1)) ops2 < 2147483648 → ∃ d'' tr'' es tl,
+        runFrom 64 d' ops2 = .ok (d'', tr'') ∧ Rep d'' es tl ∧
+        absOf d'' = Spec.MmapDict.run (absOf d') (ops2.map toSpec) ∧ readAllValues d'' = .ok (absOf d'') ∧
+        (readAllValuesFromFile 4096 (close d'')).map tr3 = .ok (absOf d'') :=
+  continuation_from_cut 64 4096 demoOps (by decide) (by decide) demo_fits
 
 example : CutRep (freshStore 64).file [] := ⟨_, _, (freshStore_rep 64 (by decide)).file, by simp⟩
 
